@@ -92,6 +92,21 @@ func placements() []placement {
 		{"uses-augment-in-b", "b", "urn:b", func(s string) (string, string) {
 			return "grouping g { container gc { leaf k { type string; } } }", "container host { uses a:g { augment gc { container c { leaf k2 { type string; } " + s + " } } } }"
 		}, "/host/gc/c", false},
+		{"typedef-of-a-used-from-b", "a", "urn:b", func(s string) (string, string) {
+			// only meaningful for leafref paths: the statement is the type of the typedef
+			t := strings.TrimSuffix(strings.TrimPrefix(s, "leaf lr { "), " }")
+			return "typedef lt { " + t + " }", "container c { leaf k { type string; } leaf lr { type a:lt; } }"
+		}, "/c", false},
+		{"deviation-from-b", "b", "urn:a", func(s string) (string, string) {
+			if strings.HasPrefix(s, "must") {
+				return "container c { leaf k { type string; } }", "deviation /a:c { deviate add { " + s + " } }"
+			}
+			if strings.HasPrefix(s, "leaf lr") {
+				t := strings.TrimSuffix(strings.TrimPrefix(s, "leaf lr { "), " }")
+				return "container c { leaf k { type string; } leaf lr { type string; } }", "deviation /a:c/a:lr { deviate replace { " + t + " } }"
+			}
+			return "container c { leaf k { type string; } }", ""
+		}, "/c", true},
 		{"submodule-of-a", "a", "urn:a", func(s string) (string, string) {
 			return "SUB:container c { leaf k { type string; } " + s + " }", ""
 		}, "/c", false},
@@ -175,6 +190,10 @@ func check(cr caseRec) (vs []engine.Violation, outcome string) {
 		file := pl.Textual + ".yang"
 		if strings.Contains(mods["a"], "include s;") {
 			file = "s.yang"
+		}
+		if pl.Name == "deviation-from-b" {
+			// the statement ends up on a node of module a, the text is in b: which location to name is unspecified
+			return vs, "error"
 		}
 		if !strings.Contains(res.Err.Error(), file) {
 			mk("error-does-not-name-the-statement's-module:"+cls, "expected "+file+" in: "+res.Err.Error())
@@ -263,6 +282,9 @@ func run(c *engine.Ctx) {
 			n := len(exprs)
 			if kind == "path" {
 				n = len(paths)
+			}
+			if pl.Name == "typedef-of-a-used-from-b" && kind != "path" || pl.Name == "deviation-from-b" && kind == "when" {
+				continue
 			}
 			for i := 0; i < n; i++ {
 				if c.Expired() {
